@@ -7,7 +7,10 @@ root = os.path.dirname(here)
 props = [json.loads(l)['id'] for l in open(os.path.join(root, 'properties.jsonl'))]
 
 TRUST = ("Trusted base: Go type checker and go/ssa (x/tools v0.29.0); documented contracts of io.ReadFull, sync.WaitGroup, sync.Mutex, "
-         "sync/atomic, channels and math.*; absence of unsafe/reflect/cgo/assembly in the module (asserted on every run). ")
+         "sync/atomic, channels and math.*; absence of unsafe/reflect/cgo/assembly in the module (asserted on every run). "
+         "Every check also discharges R-LITERALS@startup: no declared init function, initialiser closure or module function they call stores into an "
+         "initialised package-level variable the rules read from the source (registry, tables, defaults), replaces a variable of another package "
+         "(other than package flag's Usage/CommandLine) or changes the working directory / environment - so the literals the rules read are the run-time values. ")
 
 claims = {}
 def claim(pid, text, note, technique, ref):
